@@ -433,6 +433,17 @@ def check_sij(run, pkg, coarse):
         raise AnalysisError(f"{fq}: neighbour table not read once per frame")
     NL = rd[0].data["result"]
     cn = nbr_count(NL, i)
+    # the bond table is filled only up to each particle's coordination number, and counted / written out as a whole per frame: it
+    # must start from zeros in every frame (allocated or cleared inside the frame loop)
+    table = ev.data["target"][1]
+    born = [e for e in it.events if e.kind == "assign" and e.data["value"] == table]
+    cleared = [e for e in it.events if Lf.id in e.loops and ((e.kind == "call" and e.data["call"][1] in (".fill",) and e.data["call"][2] and e.data["call"][2][0] == table) or
+                                                            (e.kind == "store" and e.data["target"][1] == table and e.data["target"][2] in (("slice", NONE, NONE, NONE), ("mod", "builtins.Ellipsis"))))]
+    if born:
+        inside = all(Lf.id in e.loops for e in born) or bool(cleared)
+        run.ob("R-ALG", fq, f"{tag}:table-reset", True if inside else False, "the per-frame bond table starts from zeros in every frame", f"allocated in loops {born[0].loops}",
+               witness=None if inside else "frame 0 with CN = 7, frame 1 with CN = 4 for the same particle: columns 4..6 of frame 1 keep frame 0's s_ij - the thresholded bond count "
+               "and the written table of frame 1 contain bonds that do not exist", loc=loc_of(it, born[0]), sound=True)
     up, down = ev.data["value"][2], ev.data["value"][3]
     real = False
     if up[0] == "attr" and up[2] == "real":
